@@ -748,6 +748,23 @@ impl Elab {
         if unit.kind == UnitKind::Package {
             return Err(SvError::Elab(format!("{} is a package", inst.module)));
         }
+        // positional connections (named "\u{1}pos<i>" by the parser) take the i-th declared port
+        let resolved: InstDecl;
+        let inst: &InstDecl = if inst.conns.iter().any(|(n, _)| n.starts_with('\u{1}')) {
+            let mut c = inst.clone();
+            for (n, _) in c.conns.iter_mut() {
+                if let Some(i) = n.strip_prefix("\u{1}pos").and_then(|x| x.parse::<usize>().ok()) {
+                    match unit.ports.get(i) {
+                        Some(p) => *n = p.name.clone(),
+                        None => return Err(SvError::Elab(format!("too many positional connections for {}", unit.name))),
+                    }
+                }
+            }
+            resolved = c;
+            &resolved
+        } else {
+            inst
+        };
         // parameter overrides are evaluated in the instantiating scope
         let mut ovs: Vec<(String, ParamOverride)> = vec![];
         for (n, e) in &inst.params {
